@@ -168,3 +168,16 @@ Proof.
   unfold norm_ok. intros H. apply andb_true_iff in H as [H1 H2]. split; [now apply qclose_exact|].
   apply Qle_bool_imp_le in H2. lra.
 Qed.
+
+(* ---------------- DenseGeneral ---------------- *)
+From Coq Require Import Permutation.
+From Flaxm Require Import Model.NdIndex Proofs.NdIndex.
+
+(* the order in which the contracted axes are written does not matter: kernel dimensions follow the axes in ascending order *)
+Theorem dense_general_axes_order xshape axes axes' fshape x k bias : Permutation axes axes' ->
+  dense_general xshape axes fshape x k bias = dense_general xshape axes' fshape x k bias.
+Proof. intros H. unfold dense_general. now rewrite (nsort_perm_eq _ _ H). Qed.
+
+Theorem dense_general_length xshape axes fshape x k bias :
+  length (dense_general xshape axes fshape x k bias) = prod (dense_general_oshape xshape axes fshape).
+Proof. unfold dense_general, dense_general_oshape. cbv zeta. now rewrite map_length, seq_length. Qed.
